@@ -676,8 +676,23 @@ def d8_negative_powers(ctx, idx):
         fi = idx.func('mitxgraders.helpers.calc.math_array.MathArray.enable_negative_powers')
         cfg = cfg_of(fi.node)
         stores = [n for n in walk_own(fi.node) if isinstance(n, ast.Assign) and any(isinstance(t, ast.Attribute) and t.attr == '_negative_powers' for t in n.targets)]
-        sets = [s for s in stores if not any(isinstance(x, ast.Attribute) and x.attr == '_default_negative_powers' for x in ast.walk(s.value))]
+        def is_restore(st):
+            # the default, or the value the flag had before the setup (a local bound once to a read of the flag that dominates the setup)
+            if any(isinstance(x, ast.Attribute) and x.attr == '_default_negative_powers' for x in ast.walk(st.value)):
+                return True
+            if isinstance(st.value, ast.Name):
+                defs = [n for n in walk_own(fi.node) if isinstance(n, ast.Assign) and any(isinstance(t, ast.Name) and t.id == st.value.id for t in n.targets)]
+                if len(defs) == 1 and isinstance(defs[0].value, ast.Attribute) and defs[0].value.attr == '_negative_powers':
+                    return True
+            return False
+        sets = [s for s in stores if not is_restore(s)]
         restores = [s for s in stores if s not in sets]
+        for st in restores:
+            if isinstance(st.value, ast.Name):
+                saved = [n for n in walk_own(fi.node) if isinstance(n, ast.Assign) and any(isinstance(t, ast.Name) and t.id == st.value.id for t in n.targets)][0]
+                dom = cfg.dominates([x for x in cfg.nodes_of(saved)], [x for s0 in sets for x in cfg.nodes_of(s0)])
+                r.check(dom, 'MathArray.enable_negative_powers: saved value', 'read before the setup store',
+                        'the value restored at exit (`%s`) is read after the flag was already overwritten' % short(saved), lib.loc(fi, saved))
         ys = [n for n in walk_own(fi.node) if isinstance(n, ast.Expr) and isinstance(n.value, (ast.Yield, ast.YieldFrom))]
         if not sets or not ys:
             raise AnalysisError('enable_negative_powers: set/yield not found')
@@ -780,6 +795,8 @@ MUTANTS = [
 ]
 
 BENIGN = [
+    Benign('negpow-save-and-restore', MARR, "        # setup\n        cls._negative_powers = value\n        try:\n            # try with block\n            yield\n        finally:\n            # teardown\n            cls._negative_powers = cls._default_negative_powers",
+           "        # setup\n        previous = cls._negative_powers\n        cls._negative_powers = value\n        try:\n            # try with block\n            yield\n        finally:\n            # teardown\n            cls._negative_powers = previous"),
     Benign('register-defaults-copy-idiom', BASE, "            cls.default_values = {}\n        cls.default_values.update(values_dict)",
            "            cls.default_values = dict(values_dict)\n        else:\n            cls.default_values.update(values_dict)"),
     Benign('zero-credit-template-copied', 'mitxgraders/formulagrader/matrixgrader.py',
